@@ -15,6 +15,11 @@ import FeatModel.Lemmas.C17ErrColored2
 import FeatModel.Lemmas.C17History
 import FeatModel.Lemmas.C17Partition
 import FeatModel.Lemmas.C17Combine
+import FeatModel.Lemmas.C17CellsOnceL
+import FeatModel.Lemmas.C17Master
+import FeatModel.Lemmas.C17Result
+import FeatModel.Lemmas.C17CellsOnceC
+import FeatModel.Props.C16
 /-! # C17 — threaded assembly is race-free, terminates and equals the serial result
 
 All theorems are about the model functions that `drv_c17` executes and that the correspondence run compares with
@@ -30,9 +35,18 @@ stream `boundary-sizes` of `checks/props/c17.py` (cells / layers / components / 
 255..257, 1000/1001, thorough 32767..65537; actual worker threads 255..257; requested workers up to 65536).
 The combine lock is OBSERVED by the instrumented job's `try_lock` probe inside `combine()`, not by a hook.
 
-Not proved here (observed by the correspondence run and its oracle only): the scheduler's fairness (assumed, see
-the termination section); the error path of master-only (`assemble_master`) jobs; the C++ memory model (sequentially consistent
-atomic steps are assumed; ThreadSanitizer observes the real code). -/
+Not proved here (assumed or observed only):
+* scheduler fairness - the explicit hypothesis `hfair` (maximal run) of the `*_fair_run_terminates` theorems;
+* the C++ memory model: all theorems treat the protocol steps as sequentially consistent atomic actions; data races
+  are a RUNTIME clause observed by ThreadSanitizer (thorough tier);
+* that `compile` never aborts for an arbitrary mesh (only `_build_thread_layers` is proved total; `_build_layers`
+  finding a root is observed by the `dist` stream);
+* jobs without scatter have no per-cell event: "exactly once" is proved for their worker ranges
+  (`workers_partition`), not on an event log;
+* results of a job whose task throws are unspecified (only termination, exclusion, recovery are proved / observed);
+* floating-point rounding is not bounded (results are compared on exactly representable data);
+* the correspondence model <-> C++ itself (differential execution, hook H2, boundary-sizes stream).
+-/
 open FeatModel.DA FeatModel.Adj
 
 /-- `_build_thread_layers`, all three sweeps, for EVERY layer-offset list and every requested worker count that
@@ -620,6 +634,202 @@ theorem C17.noscatter_combined_result (c : NCfg) (s : XSt NSt) (hs : c.XReach s)
 theorems about the protocol machine hold along refined runs -/
 theorem C17.noscatter_combine_refines (c : NCfg) (s : XSt NSt) (hs : c.XReach s) : c.Reach s.base :=
   noscatter_x_base_reach c s hs
+
+/-! ### a worker with an empty share must still perform the colour's handshake -/
+
+/-- witness: 2 workers, colour 0 with ONE cell (fewer cells than workers; worker 1's share is empty), colour 1 with two
+cells.  If worker 1 `continue`s past colour 0 without the fence handshake (`CCfg.stepSkip`, event `skip 1`), it passes
+the still open front fence and scatters a cell of colour 1 while worker 2 scatters the cell of colour 0: two workers in
+`scatter()` in DIFFERENT colours - exactly what `C17.colored_safe` excludes for the real protocol `CCfg.step`, in which
+the empty-range worker goes `front → toOpen → back → toOpen2` like everybody else. -/
+theorem C17.colored_skip_handshake_unsafe :
+    ∃ (c : CCfg) (es : List SEv) (s : CSt), c.runSkip c.init es = some s ∧
+      s.ph 1 = .insc ∧ s.ph 2 = .insc ∧ s.col 1 ≠ s.col 2 ∧ c.cbeg 0 1 = c.cend 0 1 := by
+  refine ⟨CCfg.ofDist ⟨4, 2, [10, 11, 12], [], [], [0, 1, 3], 4⟩ false,
+    [.ok (.fopen 0 0), .skip 1, .ok (.fwait 1 0), .ok (.enter 1 11), .ok (.fwait 2 0), .ok (.enter 2 10)], ?_⟩
+  have h : ((CCfg.ofDist ⟨4, 2, [10, 11, 12], [], [], [0, 1, 3], 4⟩ false).runSkip
+      (CCfg.ofDist ⟨4, 2, [10, 11, 12], [], [], [0, 1, 3], 4⟩ false).init
+      [.ok (.fopen 0 0), .skip 1, .ok (.fwait 1 0), .ok (.enter 1 11), .ok (.fwait 2 0), .ok (.enter 2 10)]).isSome = true := by
+    decide
+  obtain ⟨s, hs⟩ := Option.isSome_iff_exists.1 h
+  refine ⟨s, hs, ?_⟩
+  have key : ((CCfg.ofDist ⟨4, 2, [10, 11, 12], [], [], [0, 1, 3], 4⟩ false).runSkip
+      (CCfg.ofDist ⟨4, 2, [10, 11, 12], [], [], [0, 1, 3], 4⟩ false).init
+      [.ok (.fopen 0 0), .skip 1, .ok (.fwait 1 0), .ok (.enter 1 11), .ok (.fwait 2 0), .ok (.enter 2 10)]).map
+      (fun s => decide (s.ph 1 = .insc ∧ s.ph 2 = .insc ∧ s.col 1 ≠ s.col 2)) = some true := by decide
+  rw [hs] at key
+  simp only [Option.map_some, Option.some.injEq, decide_eq_true_eq] at key
+  exact ⟨key.1, key.2.1, key.2.2, by decide⟩
+
+/-- in the real protocol the same worker, with the same empty share, does the whole handshake of colour 0: after the
+front wait it is in `toOpen` (nothing to scatter), and the safety theorem applies to every run -/
+theorem C17.colored_empty_share_handshake (c : CCfg) (s : CSt) (t : Nat) (hph : s.ph t = .front)
+    (hempty : c.cend (s.col t) t ≤ c.cbeg (s.col t) t) (hfront : s.fence 0 = true) (ht : 1 ≤ t ∧ t ≤ c.n) :
+    ∃ s', c.step s (.fwait t 0) = some s' ∧ s'.ph t = .toOpen ∧ s'.col t = s.col t := by
+  have hn : c.next s t = some (.fwait t 0) := by
+    unfold CCfg.next
+    rw [if_neg (by omega), if_neg (by omega), hph]
+  have hst : c.step s (.fwait t 0) = some (c.apply s (.fwait t 0)) := by
+    unfold CCfg.step
+    rw [if_pos ⟨by simpa [Ev.thread] using hn, by simp [CCfg.enabled, hfront]⟩]
+  refine ⟨c.apply s (.fwait t 0), hst, ?_, ?_⟩
+  · have ht0 : t ≠ 0 := by omega
+    simp [CCfg.apply, ht0, updP, CCfg.afterElem]
+    omega
+  · have ht0 : t ≠ 0 := by omega
+    simp [CCfg.apply, ht0]
+
+/-! ### every selected cell is assembled exactly once - on the global event log of a complete run -/
+
+/-- layered / layered_sorted / automatic, on the OUTPUT OF `compile` (any mesh incl. tiny ones, any selection, any
+requested worker count that leaves >= 2 workers): in every complete run of the protocol machine the driver replays
+(`LCfg.ofDist d comb`, any interleaving) the cells of the `enter`-scatter events of the global log - and likewise of
+the `leave` events - are a permutation of the selected cells: every selected cell is scattered exactly once. -/
+theorem C17.layered_every_cell_once (strategy maxW nvt : Nat) (cells : List (List Nat)) (sel : List Nat)
+    (hsel : ∀ c, c ∈ sel → ∀ v, v ∈ cells.getD c [] → v < nvt)
+    (d : Dist) (h : compile strategy maxW nvt cells sel = some d) (hs : d.strategy ≠ 4) (h2 : 2 ≤ d.nW) (comb : Bool)
+    (es : List Ev) (s : LSt) (hrun : (LCfg.ofDist d comb).run (LCfg.ofDist d comb).init es = some s)
+    (hf : LCfg.final s = true) :
+    (enterCells es).Perm sel ∧ (leaveCells es).Perm sel := by
+  obtain ⟨hle, htl⟩ := rs_layered_hyps strategy maxW nvt cells sel hsel d h hs h2
+  have hsh := rs_layered_shares strategy maxW nvt cells sel hsel d h hs h2 comb
+  have h1 := layered_cells_once d.nW (fun k => d.layerElems.getD k 0) (fun k => d.threadLayers.getD k 0)
+    (fun p => d.elemIdx.getD p 0) comb hle htl es s hrun hf
+  have h2' := layered_leaves_once d.nW (fun k => d.layerElems.getD k 0) (fun k => d.threadLayers.getD k 0)
+    (fun p => d.elemIdx.getD p 0) comb hle htl es s hrun hf
+  exact ⟨h1.trans hsh, h2'.trans hsh⟩
+
+/-- colored strategy, on the OUTPUT OF `compile` (tiny meshes and colours with fewer cells than workers included: a
+worker with an empty share contributes nothing but still runs the colour's handshake): in every complete run of
+`CCfg.ofDist d comb` the cells of the `enter`-scatter events of the global log are a permutation of the selected
+cells - every selected cell is scattered exactly once. -/
+theorem C17.colored_every_cell_once (strategy maxW nvt : Nat) (cells : List (List Nat)) (sel : List Nat)
+    (hsel : ∀ c, c ∈ sel → ∀ v, v ∈ cells.getD c [] → v < nvt)
+    (d : Dist) (h : compile strategy maxW nvt cells sel = some d) (hs : d.strategy = 4) (h2 : 2 ≤ d.nW) (comb : Bool)
+    (es : List Ev) (s : CSt) (hrun : (CCfg.ofDist d comb).run (CCfg.ofDist d comb).init es = some s)
+    (hf : CCfg.final s = true) :
+    (enterCellsC es).Perm sel := by
+  have hsh := rs_colored_shares strategy maxW nvt cells sel hsel d h hs h2 comb
+  have hn : 1 ≤ (CCfg.ofDist d comb).n := by
+    show 1 ≤ d.nW
+    omega
+  have h1 := colored_cells_once (CCfg.ofDist d comb) hn es s hrun hf
+  exact h1.trans hsh
+
+/-- "the assembled matrix / vector / integral equals the single-threaded one": the result of a complete threaded run is
+the fold of the cell contributions in the order of the global event log; that order is a permutation of the selected
+cells (`layered_every_cell_once`, `colored_every_cell_once`, `master_every_cell_once`), hence for ANY commutative,
+associative accumulation (exact arithmetic; floating point: up to summation-order rounding) the result is the serial
+fold over the selected cells. -/
+theorem C17.threaded_result_eq_serial (strategy maxW nvt : Nat) (cells : List (List Nat)) (sel : List Nat)
+    (hsel : ∀ c, c ∈ sel → ∀ v, v ∈ cells.getD c [] → v < nvt)
+    (d : Dist) (h : compile strategy maxW nvt cells sel = some d) (h2 : 2 ≤ d.nW) (comb : Bool)
+    {α : Type} (op : α → α → α) (hc : ∀ a b, op a b = op b a) (ha : ∀ a b c, op (op a b) c = op a (op b c))
+    (contrib : Nat → α) (z : α) :
+    (d.strategy ≠ 4 → ∀ (es : List Ev) (s : LSt),
+        (LCfg.ofDist d comb).run (LCfg.ofDist d comb).init es = some s → LCfg.final s = true →
+        (enterCells es).foldl (fun acc c => op acc (contrib c)) z = sel.foldl (fun acc c => op acc (contrib c)) z) ∧
+    (d.strategy = 4 → ∀ (es : List Ev) (s : CSt),
+        (CCfg.ofDist d comb).run (CCfg.ofDist d comb).init es = some s → CCfg.final s = true →
+        (enterCellsC es).foldl (fun acc c => op acc (contrib c)) z = sel.foldl (fun acc c => op acc (contrib c)) z) :=
+  ⟨fun hs es s hrun hf => rs_fold_eq_serial op hc ha contrib z _ sel
+      (C17.layered_every_cell_once strategy maxW nvt cells sel hsel d h hs h2 comb es s hrun hf).1,
+   fun hs es s hrun hf => rs_fold_eq_serial op hc ha contrib z _ sel
+      (C17.colored_every_cell_once strategy maxW nvt cells sel hsel d h hs h2 comb es s hrun hf)⟩
+
+/-- the same for the assembled MATRIX, composed with C16's `routes_agree` / `assembled_eq_sum` (model of the scatter into
+the symbolic pattern): assembling the cells in the order of ANY log that is a permutation of the selected cells - in
+particular the global log of any complete threaded run, by the theorems above - yields the same operator as the serial
+loop over the selected cells, for arbitrary local matrices over a commutative ring. -/
+theorem C17.threaded_matrix_eq_serial {α : Type} [CommRing α] (nT nS : Nat) (tm sm : List (List Nat))
+    (g : FeatModel.Adj.Graph) (hg : FeatModel.Asm.symbolicGraph2 nT nS tm sm = some g)
+    (hT : ∀ l ∈ tm, ∀ r ∈ l, r < nT) (hS : ∀ l ∈ sm, ∀ s ∈ l, s < nS)
+    (callOf : Nat → FeatModel.Asm.CellCall α) (log sel : List Nat) (hperm : log.Perm sel)
+    (hcalls : ∀ c ∈ sel, ∃ k, (callOf c).rowMap = tm.getD k [] ∧ (callOf c).colMap = sm.getD k []) :
+    ∃ st1 st2, FeatModel.Asm.assemble (FeatModel.Asm.Pattern.ofGraph g) (log.map callOf) = some st1 ∧
+      FeatModel.Asm.assemble (FeatModel.Asm.Pattern.ofGraph g) (sel.map callOf) = some st2 ∧
+      ∀ (x : Nat → α) (r : Nat), (FeatModel.Asm.Pattern.ofGraph g).apply st1.data x r =
+        (FeatModel.Asm.Pattern.ofGraph g).apply st2.data x r :=
+  C16.routes_agree nT nS tm sm g hg hT hS (log.map callOf) (sel.map callOf) (hperm.map callOf)
+    (fun c hc => by
+      obtain ⟨i, hi, rfl⟩ := List.mem_map.1 hc
+      exact hcalls i (hperm.mem_iff.1 hi))
+
+/-- master-only jobs (`assemble_master`: no worker threads - tiny meshes, 0 or 1 requested workers, strategy single):
+a complete run without failure scatters the elements exactly once, in the order of the element list; a run in which
+the task throws has scattered a prefix of it, nothing twice -/
+theorem C17.master_every_cell_once (c : MCfg) (hns : c.ns = true) (es : List EEv) (s : MSt)
+    (h : c.erun c.init es = some s) :
+    (∃ k, k ≤ c.cnt ∧ enterCellsE es = (List.range k).map c.cell) ∧
+    (MCfg.efinal s = true → s.failed = false → enterCellsE es = (List.range c.cnt).map c.cell) :=
+  ⟨master_cells_prefix c hns es s h, fun hf hok => master_cells_once c hns es s h hf hok⟩
+
+/-- master-only jobs incl. the error path: no deadlock and termination (variant function) -/
+theorem C17.master_no_deadlock (c : MCfg) (s : MSt) (hs : c.EReach s) (hf : MCfg.efinal s = false) :
+    ∃ e s', c.estep s e = some s' :=
+  FeatModel.DA.master_no_deadlock c s hs hf
+
+theorem C17.master_terminates (c : MCfg) (s : MSt) (hs : c.EReach s) :
+    (∀ e s', c.estep s e = some s' → c.emeasure s' < c.emeasure s) ∧
+    (∃ es s', c.erun s es = some s' ∧ MCfg.efinal s' = true) :=
+  FeatModel.DA.master_terminates c s hs
+
+/-! ### termination with the fairness assumption as an explicit hypothesis
+
+`hfair`: the run is MAXIMAL - the scheduler does not stop while some transition is enabled (every runnable thread is
+eventually scheduled; a thread blocked in `ThreadFence::wait()` returns once the fence is open, i.e. no lost wake-up of
+`std::condition_variable`).  This is the only thing assumed about the scheduler; everything else is proved: a maximal
+run is finite (at most `measure init` steps) and ends in the final state - all workers have terminated and the master
+has joined. -/
+
+theorem C17.layered_fair_run_terminates (n : Nat) (le tl cell : Nat → Nat) (comb : Bool)
+    (hle : ∀ i j, i < j → j ≤ tl n → le i < le j) (htl : ∀ i, i < n → tl i + 2 ≤ tl (i + 1))
+    (es : List Ev) (s : LSt)
+    (hrun : (LCfg.ofFns n le tl cell comb).run (LCfg.ofFns n le tl cell comb).init es = some s)
+    (hfair : ∀ e, (LCfg.ofFns n le tl cell comb).step s e = none) :
+    LCfg.final s = true ∧ es.length ≤ (LCfg.ofFns n le tl cell comb).measure (LCfg.ofFns n le tl cell comb).init := by
+  have hr : (LCfg.ofFns n le tl cell comb).Reach s := term_run_reach es _ s .init hrun
+  have hb := FeatModel.DA.layered_runs_bounded n le tl cell comb hle htl _ .init es s hrun
+  exact ⟨FeatModel.DA.layered_maximal_run_final n le tl cell comb hle htl s hr hfair, by omega⟩
+
+theorem C17.colored_fair_run_terminates (c : CCfg) (hn : 1 ≤ c.n) (es : List Ev) (s : CSt)
+    (hrun : c.run c.init es = some s) (hfair : ∀ e, c.step s e = none) (hr : c.Reach s) :
+    CCfg.final s = true ∧ es.length ≤ c.measure c.init := by
+  have hb := FeatModel.DA.colored_runs_bounded c hn c.init .init es s hrun
+  exact ⟨FeatModel.DA.colored_maximal_run_final c hn s hr hfair, by omega⟩
+
+theorem C17.noscatter_fair_run_terminates (c : NCfg) (es : List Ev) (s : NSt)
+    (hrun : c.run c.init es = some s) (hfair : ∀ e, c.step s e = none) (hr : c.Reach s) :
+    NCfg.final s = true ∧ es.length ≤ c.measure c.init := by
+  have hb := FeatModel.DA.noscatter_runs_bounded c c.init .init es s hrun
+  exact ⟨FeatModel.DA.noscatter_maximal_run_final c s hr hfair, by omega⟩
+
+/-- the error paths: a maximal run (fairness) with ANY failures is final -/
+theorem C17.error_path_fair_run_terminates :
+    (∀ (n : Nat) (le tl cell : Nat → Nat) (comb : Bool),
+      (∀ i j, i < j → j ≤ tl n → le i < le j) → (∀ i, i < n → tl i + 2 ≤ tl (i + 1)) →
+      ∀ s, (LCfg.ofFns n le tl cell comb).EReach s → (∀ e, (LCfg.ofFns n le tl cell comb).estep s e = none) →
+        LCfg.efinal s = true) ∧
+    (∀ (c : CCfg), 1 ≤ c.n → ∀ s, c.EReach s → (∀ e, c.estep s e = none) → CCfg.efinal s = true) ∧
+    (∀ (c : NCfg) s, c.EReach s → (∀ e, c.estep s e = none) → NCfg.efinal s = true) ∧
+    (∀ (c : MCfg) s, c.EReach s → (∀ e, c.estep s e = none) → MCfg.efinal s = true) := by
+  refine ⟨fun n le tl cell comb hle htl s hs hfair =>
+      FeatModel.DA.layered_err_maximal_run_final n le tl cell comb hle htl s hs hfair,
+    fun c hn s hs hfair => FeatModel.DA.colored_err_maximal_run_final c hn s hs hfair, ?_, ?_⟩
+  · intro c s hs hfair
+    cases hfin : NCfg.efinal s with
+    | true => rfl
+    | false =>
+      obtain ⟨e, s', h⟩ := FeatModel.DA.noscatter_err_no_deadlock c s hs hfin
+      rw [hfair e] at h
+      cases h
+  · intro c s hs hfair
+    cases hfin : MCfg.efinal s with
+    | true => rfl
+    | false =>
+      obtain ⟨e, s', h⟩ := FeatModel.DA.master_no_deadlock c s hs hfin
+      rw [hfair e] at h
+      cases h
 
 /-- the hypotheses of `thread_layers_spec` / `layered_safe_built` are satisfiable by a non-trivial value:
 8 layers of sizes 1..8, 3 requested workers -/
